@@ -7,10 +7,10 @@ N = lambda v: ('num', v)
 V = lambda n: ('var', n)
 PLUS = lambda a, b: ('bin', '+', a, b)
 
-PRELUDE = (('assign', 'x', N(1)), ('assign', 'y', N(2)))
+PRELUDE = (('assign', 'x', N(1)), ('assign', 'y', N(2)), ('define', 'nothing', (), (('return', None),)))
 SHOW = (('print', V('x')), ('print', V('y')))
 PARAM_LISTS = ((), ('x',), ('y',), ('z',), ('x', 'y'), ('y', 'x'))
-ARGS = (N(5), V('x'), V('y'), PLUS(V('y'), N(10)))
+ARGS = (N(5), V('x'), V('y'), PLUS(V('y'), N(10)), ('call', 'nothing', ()))
 
 
 def simples(extra=()):
